@@ -181,7 +181,7 @@ class NCElement:
             be returned to the caller.
         """
         self.__expression = expression
-        self.__namespaces = XPATH_NAMESPACES
+        self.__namespaces = dict(XPATH_NAMESPACES)
         self.__namespaces.update(namespaces)
         return self.__doc.xpath(self.__expression, namespaces=self.__namespaces)
 
